@@ -1481,6 +1481,24 @@ func (g *Gen) specTypeOf(expr string, pos token.Pos) types.Type {
 			if p, ok := t.Underlying().(*types.Pointer); ok {
 				return p.Elem()
 			}
+		case *ast.CallExpr:
+			// as(x, T): the asserted type T (T, *T)
+			if id, ok := n.Fun.(*ast.Ident); ok && id.Name == "as" && len(n.Args) == 2 {
+				tx := n.Args[1]
+				ptr := false
+				if st, ok := tx.(*ast.StarExpr); ok {
+					ptr = true
+					tx = st.X
+				}
+				if tid, ok := tx.(*ast.Ident); ok {
+					if tn, ok := g.P.Pkg.Types.Scope().Lookup(tid.Name).(*types.TypeName); ok {
+						if ptr {
+							return types.NewPointer(tn.Type())
+						}
+						return tn.Type()
+					}
+				}
+			}
 		}
 		return nil
 	}
